@@ -86,7 +86,7 @@ def starts_with(path, pre):
     return pre == '' or path == pre or path.startswith(pre.rstrip('/') + '/')
 
 
-def exact_check(root, top, path, hashes):
+def exact_check(root, top, path, hashes, changed=None):
     """the statement of C03 on the on-disk state; returns a list of problems (empty = exact)"""
     problems = []
     in_use = {}
@@ -152,8 +152,11 @@ def exact_check(root, top, path, hashes):
         if mp == top:
             continue
         md = os.path.dirname(mp)
-        # sub-directory updates own the Manifests at or below the directory and those on the chain above it
+        # sub-directory updates own the Manifests at or below the directory, and those on the chain above it that they
+        # rewrote (`changed`, when given: a chain Manifest the update had no reason to touch may carry damage from before)
         if not (starts_with(md, path) or starts_with(path, md)):
+            continue
+        if changed is not None and not starts_with(md, path) and mp not in changed:
             continue
         es = file_entries.get(mp, [])
         data = open(os.path.join(root, mp), 'rb').read() if os.path.isfile(os.path.join(root, mp)) else None
